@@ -373,6 +373,9 @@ def observe(seed, tier):
                         hit("C11", "the predicate job waits for jobs that provide none of its own inputs (job: extra dependencies) %s: the predicate is not evaluated as soon as its own inputs are available" % extra_pred,
                             {"flow": f.model_line(), "go_function": f.name(), "generated": got, "model": want, "module": mod})
             summary["executions"] += 1
+            if len(f.tasks) >= 2 or run["scenario"] or run.get("precancel"):
+                summary.setdefault("distinct_keys", []).append(hashlib.sha1(json.dumps(
+                    [f.model_line(), run["scenario"], run["conc"], bool(run.get("precancel"))], sort_keys=True).encode()).hexdigest()[:12])
             summary["dist"]["scenario"][run["label"]] = summary["dist"]["scenario"].get(run["label"], 0) + 1
             for p, msgs in compare(f, run, pred).items():
                 hit(p, msgs[0], {"flow": f.model_line(), "go_function": f.name(), "scenario": run["scenario"], "conc": run["conc"],
@@ -452,8 +455,13 @@ def apply(chk, pid):
         "input_distribution": s["dist"]}
     for smp in s["samples"][:2]:
         chk.sample(smp)
-    for i in range(s["executions"]):
-        chk.distinct.add(("genexec", i))
+    for k in s.get("distinct_keys", []):
+        chk.distinct.add(("gen", k))
+    rule = ("generated flows: seeded layered DAGs (1-6 tasks, shuffled listing; predicates, FallbackWith, Invoke, ctx parameters, instrumentation, spelling variants of the file), "
+            "each executed under the all-ok scenario at three concurrency levels, every single-failure scenario (error, panic with four kinds of value, predicate false/panic, in-task "
+            "cancellation) and a pre-cancelled context; distinct = different (abstract flow, scenario, concurrency); non-trivial = at least two tasks or a non-empty scenario")
+    if rule not in chk.cov["rule"]:
+        chk.cov["rule"] = (chk.cov["rule"] + " | " if chk.cov["rule"] else "") + rule
     for h in s["hits"].get(pid, [])[:1]:
         chk.violate(h["what"], h["payload"])
     if pid in ("C01", "C02"):
